@@ -31,6 +31,12 @@ class P(Prop):
     design_ref = "DESIGN.md section 5, C04 and appendix A.5"
     M = "TracklibVerif.Props.C04"
     theorems = [
+        (M, "TV.C04.dichotomy_in_range", "T1: for any timestamps and any first step 2^j with 2*2^j <= N the search loop, run with an access that fails on every index outside 0..N-1, ends within fuel j+N+3 at an index 0..N-1"),
+        (M, "TV.C04.insertionIndex_no_index_error", "T1 whole function: on every list __getInsertionIndex returns an index 0..N without reading outside 0..N-1 (no IndexError, no negative wrap); the model as run gives the same"),
+        (M, "TV.C04.insertionIndexFrom_spec", "T2: on sorted timestamps (N>=2), any first step 2^j with 2*2^j<=N: result = number of timestamps <= ts"),
+        (M, "TV.C04.insertionIndex_spec", "T2 with the code's first step: countP(<= ts); for a single observation countP(< ts)"),
+        (M, "TV.C04.insert_total", "insertObs(obs) on any track = the old observations in order with the new one at some position r <= N, names unchanged"),
+        (M, "TV.C04.insert_sorted", "T3: insertion into a time-sorted track: permutation of new::old, still non-decreasing in time"),
         (M, "TV.C04.extract_spec", "extract(a,b) = exactly the observations a..b (both ends included), feature names carried"),
         (M, "TV.C04.extractSpanTime_spec", "extractSpanTime = exactly the observations in the closed span, bounds in either order"),
         (M, "TV.C04.concat_spec", "t1 + t2 = observations of t1 then of t2; a common feature-name table is carried"),
